@@ -351,6 +351,12 @@ Theorem C01_alm_zerofpr_converged_is_kkt :
 Proof. exact alm_zerofpr_converged_is_kkt. Qed.
 Print Assumptions C01_alm_zerofpr_converged_is_kkt.
 
+Example C01_alm_zerofpr_nonvacuous :
+  exists co,
+    alm_zerofpr nvPb nvprov (fun _ => []) [Some 0] [Some 1] [] 0 nv_zdir false nv_never nv_never (fun _ => false) nvPP nvAP 5 5 3 0 None [0] [0] = Some co /\
+    f_status (co_final co) = Converged /\ co_x co = [0] /\ f_y (co_final co) = [0].
+Proof. exact nv_zconverged. Qed.
+
 (* (7) THE SHIPPED DEFAULT STACK, generically: ALMSolver<PANOCSolver<DirectionProviderT>> for EVERY provider (Directions.dirops: a state
    machine initialize / update / apply / changed_γ / reset) that keeps dimensions.  The composed model AlmPanocDir.alm_panoc_dir threads
    (cumulative counters, provider state) through the inner solves: the provider PERSISTS across inner solves as the C++ object does and
